@@ -17,7 +17,7 @@ var c16Mutations = []string{
 	"duid-random", "duid-other-datatype", "key-other", "key-empty", "key-unknown", "option-bits", "cp-stale", "cp-future", "cp-huge",
 	"ops-gap", "ops-repeated", "ops-reordered", "ops-truncated-tx", "ops-other-kind", "ops-empty", "ops-nil-id", "type-other", "era-other",
 	"readonly-with-ops", "readonly", "cuid-unregistered", "cuid-admin", "cuid-other-client", "cuid-empty", "collection-unknown", "collection-other",
-	"zero-packs", "two-packs-one-key", "nil-checkpoint",
+	"zero-packs", "two-packs-one-key", "nil-checkpoint", "ops-unknown-type", "ops-garbage-body", "ops-unknown-type", "ops-garbage-body",
 }
 
 // mutate applies one structured mutation to a valid request (in place).
@@ -119,6 +119,15 @@ func c16Mutate(rt *rapid.T, w *l1World, req *model.PushPullMessage, c *l1Client,
 		p.Operations = otherOps()
 	case "ops-empty":
 		p.Operations = nil
+	case "ops-unknown-type", "ops-garbage-body":
+		// a next-in-sequence operation the server will store but nobody can decode: the server's own
+		// post-response work (snapshot update replays the log) must survive it
+		op := &model.Operation{ID: &model.OperationID{CUID: req.Cuid, Lamport: 4242, Seq: p.CheckPoint.GetCseq() + 1}, OpType: model.TypeOfOperation_COUNTER_INCREASE, Body: []byte(`{"Delta":`)}
+		if mut == "ops-unknown-type" {
+			op.OpType, op.Body = model.TypeOfOperation(9999), []byte(`{}`)
+		}
+		p.Operations = append(p.Operations, op)
+		p.CheckPoint = &model.CheckPoint{Sseq: p.CheckPoint.GetSseq(), Cseq: p.CheckPoint.GetCseq() + 1}
 	case "ops-nil-id":
 		p.Operations = append(p.Operations, &model.Operation{OpType: model.TypeOfOperation_COUNTER_INCREASE, Body: []byte(`{"Delta":1}`)})
 	case "type-other":
